@@ -15,6 +15,7 @@
  * 51 Franklin Street, Fifth Floor, Boston, MA 02110-1301 USA.
  */
 
+#include <cmath>
 #include <string>
 
 #include "oomd/Log.h"
@@ -37,8 +38,20 @@ std::unordered_set<CgroupPath> PluginArgParser::parseCgroup(
   return res;
 }
 
+namespace {
+// std::sto* stop at the first character they do not understand; a value such
+// as "5abc" or "1e3" is not a number and must not be read as 5 or 1.
+void requireFullyParsed(const std::string& str, size_t end) {
+  if (end != str.size()) {
+    throw std::invalid_argument("trailing characters in number: " + str);
+  }
+}
+} // namespace
+
 int PluginArgParser::parseUnsignedInt(const std::string& intStr) {
-  int res = std::stoi(intStr);
+  size_t end = 0;
+  int res = std::stoi(intStr, &end);
+  requireFullyParsed(intStr, end);
   if (res < 0) {
     throw std::invalid_argument("must be non-negative");
   }
@@ -105,22 +118,41 @@ std::unordered_set<std::string> PluginArgParser::validArgNames() {
 
 template <>
 int64_t PluginArgParser::parseValue(const std::string& valueString) {
-  return std::stoull(valueString);
+  size_t end = 0;
+  // signed: stoull would wrap negative and too large values around
+  int64_t res = std::stoll(valueString, &end);
+  requireFullyParsed(valueString, end);
+  return res;
 }
 
 template <>
 int PluginArgParser::parseValue(const std::string& valueString) {
-  return std::stoi(valueString);
+  size_t end = 0;
+  int res = std::stoi(valueString, &end);
+  requireFullyParsed(valueString, end);
+  return res;
 }
 
 template <>
 double PluginArgParser::parseValue(const std::string& valueString) {
-  return std::stod(valueString);
+  size_t end = 0;
+  double res = std::stod(valueString, &end);
+  requireFullyParsed(valueString, end);
+  if (!std::isfinite(res)) {
+    throw std::invalid_argument("not a finite number: " + valueString);
+  }
+  return res;
 }
 
 template <>
 float PluginArgParser::parseValue(const std::string& valueString) {
-  return std::stof(valueString);
+  size_t end = 0;
+  float res = std::stof(valueString, &end);
+  requireFullyParsed(valueString, end);
+  if (!std::isfinite(res)) {
+    throw std::invalid_argument("not a finite number: " + valueString);
+  }
+  return res;
 }
 
 template <>
@@ -145,7 +177,10 @@ std::string PluginArgParser::parseValue(const std::string& valueString) {
 template <>
 std::chrono::milliseconds PluginArgParser::parseValue(
     const std::string& valueString) {
-  return std::chrono::milliseconds(std::stoll(valueString));
+  size_t end = 0;
+  auto res = std::stoll(valueString, &end);
+  requireFullyParsed(valueString, end);
+  return std::chrono::milliseconds(res);
 }
 
 template <>
